@@ -432,6 +432,37 @@ theorem rangeQuery_length (x : Nat) (hx : x < n) :
     (rangeQuery dist tol n x).length = ((List.range n).filter fun j => decide (dist x j < tol)).length := by
   unfold rangeQuery; rw [if_pos hx]
 
+
+/-- the other three labelling clauses in the terms of the definition (same function
+`dbscan (some (rangeQuery dist tol n)) mp n`, the one the driver runs on the `dbscanrq` requests):
+core samples within the tolerance of each other carry one label; a labelled non-core sample carries
+the label of a core sample within the tolerance; equally labelled core samples are density-connected. -/
+theorem dbscan_clauses_metric (hsymm : ∀ i j, dist i j = dist j i) :
+    (∀ x y v w, x < n → y < n → mp ≤ (rangeQuery dist tol n x).length → mp ≤ (rangeQuery dist tol n y).length →
+      dist x y < tol → isLab (dbscan (some (rangeQuery dist tol n)) mp n) x v →
+      isLab (dbscan (some (rangeQuery dist tol n)) mp n) y w → v = w) ∧
+    (∀ x v, isLab (dbscan (some (rangeQuery dist tol n)) mp n) x v → ¬ mp ≤ (rangeQuery dist tol n x).length →
+      ∃ y, y < n ∧ mp ≤ (rangeQuery dist tol n y).length ∧
+        isLab (dbscan (some (rangeQuery dist tol n)) mp n) y v ∧ dist y x < tol) ∧
+    (∀ x y v, mp ≤ (rangeQuery dist tol n x).length → mp ≤ (rangeQuery dist tol n y).length →
+      isLab (dbscan (some (rangeQuery dist tol n)) mp n) x v →
+      isLab (dbscan (some (rangeQuery dist tol n)) mp n) y v →
+      ∃ s, Conn (rangeQuery dist tol n) mp s x ∧ Conn (rangeQuery dist tol n) mp s y) := by
+  have hr := rangeQuery_range dist tol n
+  have hn := rangeQuery_nodup dist tol n
+  have hs := rangeQuery_symm dist tol n hsymm
+  refine ⟨?_, ?_, ?_⟩
+  · intro x y v w hx hy cx cy hxy lx ly
+    exact dbscan_core_adjacent_same _ mp n hr hn hs x y v w cx cy
+      ((mem_rangeQuery dist tol n x y).mpr ⟨hx, hy, hxy⟩) lx ly
+  · intro x v lx hb
+    obtain ⟨y, y1, y2, y3⟩ := dbscan_border_label _ mp n hr hn hs x v lx hb
+    obtain ⟨a, _, c⟩ := (mem_rangeQuery dist tol n y x).mp y3
+    exact ⟨y, a, y1, y2, c⟩
+  · intro x y v cx cy lx ly
+    obtain ⟨s, _, s2, s3⟩ := dbscan_components_differ _ mp n hr hn hs x y v cx cy lx ly
+    exact ⟨s, s2, s3⟩
+
 end metric
 
 /-- non-vacuity: samples at 0, 1, 2, 9 on a line (distance `|a - b|` on naturals, symmetric), tolerance 2,
@@ -557,6 +588,90 @@ example : (∀ i, ∀ j ∈ exNbrs i, j < 5) := by
   match i with
   | 0 | 1 | 2 | 3 | 4 => simp [exNbrs] at h; omega
   | _ + 5 => simp [exNbrs] at h
+
+/-- **termination of the OPTICS seed loop**: after every iteration of the outer scan the seed list is
+empty — the `while !seeds.is_empty()` loop of the model always ends because the list is empty, never
+because its fuel (`n + 1`) ran out (measure: the number of samples listed; a waiting seed is an unlisted
+position below `n`).  With `seedLoop_fuel_irrelevant` (Proofs/Optics.lean): more fuel gives the same
+result.  Needs only `hrange`. -/
+theorem optics_fuel_enough {D : Type} [LT D] [DecidableLT D]
+    (nbrs : Nat → List Nat) (dist : Nat → Nat → D) (mp n : Nat)
+    (hrange : ∀ i, ∀ j ∈ nbrs i, j < n) (k : Nat) (hk : k ≤ n) :
+    ((List.range k).foldl (Optics.outerStep nbrs dist mp n) (Optics.init n)).seeds = [] :=
+  Optics.foldl_seeds_empty n nbrs dist mp hrange k hk
+
+/-- the result of OPTICS does not depend on the fuel constant of the model: any fuel `≥ n` for the seed
+loop started by the outer step gives the state the model computes with `n + 1` -/
+theorem optics_seed_loop_fuel_irrelevant {D : Type} [LT D] [DecidableLT D]
+    (nbrs : Nat → List Nat) (dist : Nat → Nat → D) (mp n : Nat)
+    (hrange : ∀ i, ∀ j ∈ nbrs i, j < n) (s : Optics.State D) (hs : Optics.SInv n s)
+    (fuel : Nat) (hf : n ≤ s.out.length + fuel) :
+    Optics.seedLoop nbrs dist mp (fuel + 1) s = Optics.seedLoop nbrs dist mp fuel s :=
+  Optics.seedLoop_fuel_irrelevant n nbrs dist mp hrange fuel s hs hf
+
+example : ((List.range 5).foldl (Optics.outerStep exNbrs exLine 3 5) (Optics.init 5)).seeds = [] :=
+  optics_fuel_enough exNbrs exLine 3 5 (by
+    intro i j h
+    match i with
+    | 0 | 1 | 2 | 3 | 4 => simp [exNbrs] at h; omega
+    | _ + 5 => simp [exNbrs] at h) 5 (Nat.le_refl 5)
+
+/-! ### OPTICS in the terms of the definition: neighbourhood `{j < n | dist i j < tol}`
+
+The three OPTICS clauses for the very function the driver runs on the `opticsrq` requests:
+`optics (some (rangeQuery dist tol n)) dist mp n`, nothing assumed about an index.  Symmetry of `dist` is
+not needed. -/
+section optics_metric
+open LinfaSpec.Optics
+variable {D : Type} [LinearOrder D] (dist : Nat → Nat → D) (tol : D) (mp n : Nat)
+
+/-- every sample is listed exactly once -/
+theorem optics_lists_each_once_metric :
+    ((optics (some (rangeQuery dist tol n)) dist mp n).map (·.index)).Nodup ∧
+    ∀ j, j ∈ (optics (some (rangeQuery dist tol n)) dist mp n).map (·.index) ↔ j < n :=
+  optics_lists_each_once (rangeQuery dist tol n) dist mp n (rangeQuery_range dist tol n)
+
+/-- **core distance = distance to the `min_points`-th nearest sample within the tolerance** (the sample
+itself counted, `1 ≤ min_points`): `ds` is the ascending arrangement of the distances `dist x j` of all
+`j < n` with `dist x j < tol`, and the core distance is its element `min_points - 1` — undefined exactly
+when fewer than `min_points` samples lie within the tolerance. -/
+theorem optics_core_distance_metric (_hmp : 1 ≤ mp) :
+    ∀ e ∈ optics (some (rangeQuery dist tol n)) dist mp n, ∃ ds : List D,
+      ds.Perm (((List.range n).filter fun j => decide (dist e.index j < tol)).map (dist e.index)) ∧
+      ds.Pairwise (· ≤ ·) ∧ e.core = ds[mp - 1]? ∧
+      (e.core = none ↔ ((List.range n).filter fun j => decide (dist e.index j < tol)).length < mp) := by
+  intro e he
+  obtain ⟨ds, h1, h2, h3⟩ := optics_core_distance (rangeQuery dist tol n) dist mp n e he
+  have hlt : e.index < n :=
+    ((optics_lists_each_once_metric dist tol mp n).2 e.index).mp (List.mem_map.mpr ⟨e, he, rfl⟩)
+  have hq : rangeQuery dist tol n e.index = (List.range n).filter fun j => decide (dist e.index j < tol) := by
+    unfold rangeQuery; rw [if_pos hlt]
+  rw [hq] at h1
+  refine ⟨ds, h1, h2, h3, ?_⟩
+  rw [h3, List.getElem?_eq_none_iff, h1.length_eq, List.length_map]
+  omega
+
+/-- **reachability**: undefined, or `max(core distance of o, dist(x, o))` for a core sample `o` listed
+strictly earlier with `dist o x < tol` -/
+theorem optics_reachability_witness_metric :
+    ∀ (p : Nat) (e : Entry D), (optics (some (rangeQuery dist tol n)) dist mp n)[p]? = some e →
+      ∀ r : D, e.reach = some r →
+      ∃ (q : Nat) (o : Entry D) (c : D), q < p ∧
+        (optics (some (rangeQuery dist tol n)) dist mp n)[q]? = some o ∧ o.core = some c ∧
+        dist o.index e.index < tol ∧ r = max c (dist e.index o.index) := by
+  intro p e he r hr
+  obtain ⟨q, o, c, h1, h2, h3, h4, h5⟩ :=
+    optics_reachability_witness (rangeQuery dist tol n) dist mp n (rangeQuery_range dist tol n) p e he r hr
+  exact ⟨q, o, c, h1, h2, h3, ((mem_rangeQuery dist tol n o.index e.index).mp h4).2.2, h5⟩
+
+end optics_metric
+
+example : ((Optics.optics (some (rangeQuery exLine 2 4)) exLine 3 4).map fun e => (e.index, e.core, e.reach)) =
+    [(0, none, none), (1, some 1, none), (2, none, some 1), (3, none, none)] := by
+  simp [Optics.optics, Optics.outerStep, Optics.seedLoop, Optics.seedStep, Optics.getSeeds, Optics.init,
+    Optics.coreDist, Optics.findNeighbors, Optics.isProcessed, Optics.setCore, Optics.setReach,
+    Optics.getReach, Optics.fmax, Optics.argminPos, rangeQuery, exLine, List.range, List.range.loop,
+    List.mergeSort, List.MergeSort.Internal.splitInTwo]
 
 section optics_determined
 open LinfaSpec.Optics
@@ -704,6 +819,29 @@ theorem optics_params_check_error (p : Optics.Params α) :
   · by_cases h1 : p.minPoints ≤ 1
     · simp [h1, h2]; exact not_le.mp h2
     · simp [h1, h2]
+
+/-- the guard as the code states it, for **every** scalar with a decidable `≤` — no order axioms, so it
+applies to the `Float` instance the driver runs (where `NaN ≤ 0` is false: a NaN tolerance is accepted,
+by the code as by the model; the statement's quantifier does not contain it) -/
+theorem dbscan_params_check_generic {β : Type} [LE β] [DecidableLE β] [OfNat β 0] (p q : Dbscan.Params β) :
+    p.check = .ok q ↔ (2 ≤ p.minPoints ∧ ¬ p.tolerance ≤ 0 ∧ q = p) := by
+  unfold Dbscan.Params.check
+  by_cases h1 : p.minPoints ≤ 1
+  · simp [h1]; omega
+  · by_cases h2 : p.tolerance ≤ 0
+    · simp [h1, h2]
+    · simp only [h1, h2, if_false, Except.ok.injEq]
+      exact ⟨fun e => ⟨by omega, fun h => h, e.symm⟩, fun e => e.2.2.symm⟩
+
+theorem optics_params_check_generic {β : Type} [LE β] [DecidableLE β] [OfNat β 0] (p q : Optics.Params β) :
+    p.check = .ok q ↔ (2 ≤ p.minPoints ∧ ¬ p.tolerance ≤ 0 ∧ q = p) := by
+  unfold Optics.Params.check
+  by_cases h2 : p.tolerance ≤ 0
+  · simp [h2]
+  · by_cases h1 : p.minPoints ≤ 1
+    · simp [h1, h2]; omega
+    · simp only [h1, h2, if_false, Except.ok.injEq]
+      exact ⟨fun e => ⟨by omega, fun h => h, e.symm⟩, fun e => e.2.2.symm⟩
 
 example : (Dbscan.Params.new (1 : Int) 3).check = .ok ⟨3, 1⟩ := by
   simp [Dbscan.Params.check, Dbscan.Params.new]
